@@ -444,7 +444,15 @@ fn single_history(rep: &mut Report, rng: &mut Rng, idx: u64) {
             rep.count("restarts", 1);
             continue;
         }
-        let len = if big { Some(20_000 + rng.usize_below(60_000)) } else { sizes_around(limit, rng) };
+        let len = if big && rng.chance(1, 3) {
+            // a record whose encoded size is exactly 2^16 or 2^17 bytes (16-bit byte counters wrap to zero)
+            let total = *rng.pick(&[65_536usize, 131_072]);
+            (total - 40..total).find(|l| frame_len(1, seq, *l) == total)
+        } else if big {
+            Some(20_000 + rng.usize_below(60_000))
+        } else {
+            sizes_around(limit, rng)
+        };
         let len = if enc_kind == 0 && len.is_none() { Some(0) } else { len };
         let r = e.append(1, seq, len);
         seq += 1;
